@@ -508,7 +508,7 @@ class _VersionIndependentUnmarshaller:
         self.is_pypy = self.magic_int in PYPY3_MAGICS
 
         # FIXME: Check/verify that is true:
-        bytes_for_s = PYTHON_VERSION_TRIPLE >= (3, 0) and (self.version_tuple > (3, 0))
+        bytes_for_s = PYTHON_VERSION_TRIPLE >= (3, 0) and (self.version_tuple >= (3, 0))
         if self.is_graal:
             co_consts = tuple()
             co_names = tuple()
